@@ -193,4 +193,126 @@ theorem result_band {F : ℝ → ℝ} {p μ ε r qlo qhi : ℝ} (hres : Result F
   subst hr
   refine ⟨by linarith, by linarith, by linarith⟩
 
+/-! ## the driver's fuel covers every binary64-sized bracket -/
+
+theorem passes_le {b R : ℝ} {n : ℕ} (hb : 1 < b) (hR : 0 < R) (h : R ≤ b ^ n) : passes b R ≤ n := by
+  unfold passes
+  rw [Nat.ceil_le, Real.logb_le_iff_le_rpow hb hR, Real.rpow_natCast]
+  exact h
+
+set_option exponentiation.threshold 4000 in
+theorem pow_facts : (2 : ℝ) ^ 1024 ≤ 3 ^ 647 ∧ (3 : ℝ) ^ 648 ≤ 2 ^ 1028 ∧ (1e6 : ℝ) ≤ 2 ^ 20 := by
+  refine ⟨?_, ?_, ?_⟩
+  · exact_mod_cast (by norm_num : (2 : ℕ) ^ 1024 ≤ 3 ^ 647)
+  · exact_mod_cast (by norm_num : (3 : ℕ) ^ 648 ≤ 2 ^ 1028)
+  · norm_num
+
+/-- a bracket that fits binary64 — reach at most `2^1024` (the largest finite double is below it), distance `δ` from the
+    support edge at least `2^-1074` (the smallest positive double) — needs at most `2123` passes per loop: the driver's
+    `Bisect.defaultFuel = 5000` is enough for `esl_sxp_invcdf` / `esl_hxp_invcdf` on every such input -/
+theorem fuelRight_le {reach δ : ℝ} (h0 : 0 < reach) (hr : reach ≤ 2 ^ 1024) (hδ : 1 ≤ δ * 2 ^ 1074) :
+    fuelRight reach δ ≤ 2123 ∧ fuelRight reach δ ≤ Bisect.defaultFuel := by
+  obtain ⟨f1, f2, f3⟩ := pow_facts
+  have hδ0 : 0 < δ := by
+    by_contra h
+    have h2 : δ * 2 ^ 1074 ≤ 0 := mul_nonpos_of_nonpos_of_nonneg (not_lt.mp h) (by positivity)
+    exact absurd (hδ.trans h2) (by norm_num)
+  have hN1 : passes 3 reach ≤ 647 := passes_le (by norm_num) h0 (hr.trans f1)
+  have h3 : (3 : ℝ) ^ (passes 3 reach + 1) ≤ 3 ^ 648 := pow_le_pow_right₀ (by norm_num) (by omega)
+  have hpos : (0 : ℝ) < 1e-6 * δ := by positivity
+  have hN2 : passes 2 (3 ^ (passes 3 reach + 1) / (1e-6 * δ)) ≤ 2122 := by
+    refine passes_le (by norm_num) (by positivity) ?_
+    rw [div_le_iff₀ hpos]
+    have e : (2 : ℝ) ^ 2122 = 2 ^ 1028 * 2 ^ 20 * 2 ^ 1074 := by rw [← pow_add, ← pow_add]
+    have hA : (0 : ℝ) ≤ 2 ^ 1028 := by positivity
+    calc (3 : ℝ) ^ (passes 3 reach + 1) ≤ 2 ^ 1028 := h3.trans f2
+      _ = 2 ^ 1028 * (1e6 * 1e-6) * 1 := by norm_num
+      _ ≤ 2 ^ 1028 * (2 ^ 20 * 1e-6) * (δ * 2 ^ 1074) := by
+          apply mul_le_mul _ hδ (by norm_num) (by positivity)
+          exact mul_le_mul_of_nonneg_left (mul_le_mul_of_nonneg_right f3 (by norm_num)) hA
+      _ = 2 ^ 2122 * (1e-6 * δ) := by rw [e]; ring
+  have hle : fuelRight reach δ ≤ 2123 := by unfold fuelRight; omega
+  exact ⟨hle, hle.trans (by unfold Bisect.defaultFuel; omega)⟩
+
+/-- the same for `esl_mixgev_invcdf`: bracketing points within `2^1024` of `min μ_k` on either side need at most `2107`
+    passes per loop (no edge distance enters: the stop rule has the absolute floor `1e-15`) -/
+theorem fuelMix_le {left right : ℝ} (hl0 : 0 < left) (hl : left ≤ 2 ^ 1024) (hr0 : 0 ≤ right) (hr : right + 1 ≤ 2 ^ 1024) :
+    fuelMix left right ≤ 2107 ∧ fuelMix left right ≤ Bisect.defaultFuel := by
+  obtain ⟨f1, f2, _⟩ := pow_facts
+  have hN0 : passes 3 left ≤ 647 := passes_le (by norm_num) hl0 (hl.trans f1)
+  have hN1 : passes 3 (right + 1) ≤ 647 := passes_le (by norm_num) (by linarith) (hr.trans f1)
+  have h30 : (3 : ℝ) ^ (passes 3 left + 1) ≤ 3 ^ 648 := pow_le_pow_right₀ (by norm_num) (by omega)
+  have h31 : (3 : ℝ) ^ (passes 3 (right + 1) + 1) ≤ 3 ^ 648 := pow_le_pow_right₀ (by norm_num) (by omega)
+  have hN2 : passes 2 (3 ^ (passes 3 (right + 1) + 1) * 3 ^ (passes 3 left + 1) / 1e-15) ≤ 2106 := by
+    refine passes_le (by norm_num) (by positivity) ?_
+    rw [div_le_iff₀ (by norm_num)]
+    have e : (2 : ℝ) ^ 2106 = 2 ^ 1028 * 2 ^ 1028 * 2 ^ 50 := by rw [← pow_add, ← pow_add]
+    have h50 : (1 : ℝ) ≤ 2 ^ 50 * 1e-15 := by norm_num
+    have hA : (0 : ℝ) ≤ 2 ^ 1028 * 2 ^ 1028 := by positivity
+    calc (3 : ℝ) ^ (passes 3 (right + 1) + 1) * 3 ^ (passes 3 left + 1) ≤ 2 ^ 1028 * 2 ^ 1028 :=
+          mul_le_mul (h31.trans f2) (h30.trans f2) (by positivity) (by positivity)
+      _ = 2 ^ 1028 * 2 ^ 1028 * 1 := by rw [mul_one]
+      _ ≤ 2 ^ 1028 * 2 ^ 1028 * (2 ^ 50 * 1e-15) := mul_le_mul_of_nonneg_left h50 hA
+      _ = 2 ^ 2106 * 1e-15 := by rw [e]; ring
+  have hle : fuelMix left right ≤ 2107 := by unfold fuelMix; omega
+  exact ⟨hle, hle.trans (by unfold Bisect.defaultFuel; omega)⟩
+
+theorem pow_passes_le {b R : ℝ} (hb : 1 < b) (hR : 0 < R) : b ^ passes b R ≤ 1 + b * R := by
+  have hb0 : 0 < b := by linarith
+  rcases le_or_gt (Real.logb b R) 0 with h | h
+  · have : passes b R = 0 := by unfold passes; exact Nat.ceil_eq_zero.mpr h
+    rw [this, pow_zero]; nlinarith
+  · have h1 : ((passes b R : ℕ) : ℝ) < Real.logb b R + 1 := Nat.ceil_lt_add_one h.le
+    calc b ^ passes b R = b ^ ((passes b R : ℕ) : ℝ) := (Real.rpow_natCast _ _).symm
+      _ ≤ b ^ (Real.logb b R + 1) := Real.rpow_le_rpow_of_exponent_le hb.le h1.le
+      _ = R * b := by rw [Real.rpow_add hb0, Real.rpow_logb hb0 (ne_of_gt hb) hR, Real.rpow_one]
+      _ ≤ 1 + b * R := by nlinarith
+
+/-- the same for `esl_gam_invcdf` (`s = τ/λ`, the starting reach): reach and `s` at most `2^1024`, `s` and `δ` at least
+    `2^-1074` — at most `2122` passes per loop -/
+theorem fuelGam_le {reach δ s : ℝ} (h0 : 0 < reach) (hr : reach ≤ 2 ^ 1024) (hδ : 1 ≤ δ * 2 ^ 1074)
+    (hs1 : 1 ≤ s * 2 ^ 1074) (hs2 : s ≤ 2 ^ 1024) :
+    fuelGam reach δ s ≤ 2122 ∧ fuelGam reach δ s ≤ Bisect.defaultFuel := by
+  obtain ⟨_, _, f3⟩ := pow_facts
+  have pos_of : ∀ t : ℝ, 1 ≤ t * 2 ^ 1074 → 0 < t := fun t ht => by
+    by_contra h
+    have h2 : t * 2 ^ 1074 ≤ 0 := mul_nonpos_of_nonpos_of_nonneg (not_lt.mp h) (by positivity)
+    exact absurd (ht.trans h2) (by norm_num)
+  have hδ0 := pos_of δ hδ
+  have hs0 := pos_of s hs1
+  have hq : 0 < reach / s := div_pos h0 hs0
+  have hN1 : passes 2 (reach / s) ≤ 2098 := by
+    refine passes_le (by norm_num) hq ?_
+    rw [div_le_iff₀ hs0]
+    have e : (2 : ℝ) ^ 2098 = 2 ^ 1024 * 2 ^ 1074 := by rw [← pow_add]
+    calc reach ≤ 2 ^ 1024 := hr
+      _ = 2 ^ 1024 * 1 := by rw [mul_one]
+      _ ≤ 2 ^ 1024 * (s * 2 ^ 1074) := mul_le_mul_of_nonneg_left hs1 (by positivity)
+      _ = 2 ^ 2098 * s := by rw [e]; ring
+  have hpos : (0 : ℝ) < 1e-6 * δ := by positivity
+  have hnum : (2 : ℝ) ^ (passes 2 (reach / s) + 1) * s ≤ 2 ^ 1027 := by
+    have h1 := pow_passes_le (b := 2) (R := reach / s) (by norm_num) hq
+    have h2 : (2 : ℝ) ^ (passes 2 (reach / s) + 1) * s = 2 * (2 ^ passes 2 (reach / s) * s) := by rw [pow_succ]; ring
+    have h3 : (2 : ℝ) ^ passes 2 (reach / s) * s ≤ s + 2 * reach := by
+      have := mul_le_mul_of_nonneg_right h1 hs0.le
+      have e : (1 + 2 * (reach / s)) * s = s + 2 * reach := by field_simp
+      linarith
+    have e27 : (2 : ℝ) ^ 1027 = 8 * 2 ^ 1024 := by rw [show (1027 : ℕ) = 3 + 1024 by norm_num, pow_add]; norm_num
+    have key : ∀ T : ℝ, reach ≤ T → s ≤ T → 2 * (s + 2 * reach) ≤ 8 * T := fun T a b => by linarith
+    rw [h2, e27]
+    exact (mul_le_mul_of_nonneg_left h3 (by norm_num)).trans (key _ hr hs2)
+  have hN2 : passes 2 (2 ^ (passes 2 (reach / s) + 1) * s / (1e-6 * δ)) ≤ 2121 := by
+    refine passes_le (by norm_num) (by positivity) ?_
+    rw [div_le_iff₀ hpos]
+    have e : (2 : ℝ) ^ 2121 = 2 ^ 1027 * 2 ^ 20 * 2 ^ 1074 := by rw [← pow_add, ← pow_add]
+    have hA : (0 : ℝ) ≤ 2 ^ 1027 := by positivity
+    calc (2 : ℝ) ^ (passes 2 (reach / s) + 1) * s ≤ 2 ^ 1027 := hnum
+      _ = 2 ^ 1027 * (1e6 * 1e-6) * 1 := by norm_num
+      _ ≤ 2 ^ 1027 * (2 ^ 20 * 1e-6) * (δ * 2 ^ 1074) := by
+          apply mul_le_mul _ hδ (by norm_num) (by positivity)
+          exact mul_le_mul_of_nonneg_left (mul_le_mul_of_nonneg_right f3 (by norm_num)) hA
+      _ = 2 ^ 2121 * (1e-6 * δ) := by rw [e]; ring
+  have hle : fuelGam reach δ s ≤ 2122 := by unfold fuelGam; omega
+  exact ⟨hle, hle.trans (by unfold Bisect.defaultFuel; omega)⟩
+
 end EaselModel.Dist.BisectTotal
